@@ -6,7 +6,7 @@ LEVEL = "other"
 EXPLANATION = (
     "Proved (unbounded): EvalMainContext.is_authorized_path answers True exactly when some dotted prefix of the canonical path is in the "
     "accepted set, for every path depth and every size of the accepted set; accept_module adds exactly the module's name; _is_authorized_type tracks exactly the documented value types (27 classes x symbolic options and registry: scalars, paths, functions, modules always; list / tuple and dict / OrderedDict under their option; any other class never -- a coded error when its module is accepted). "
-    "ObjectRetrieval._retrieve_object_rec (the authorized / external classification of a resolved name) is proved, over an abstract object graph and with the recursive call used by contract (partial correctness), to track an object only under an accepted path (S1), to follow a module attribute whatever module it is, to resolve a function / class defined elsewhere in its defining module under its own name, to track every terminal function / class / tracked value of an accepted path and nothing else, and to report a missing name as a coded error; three adequacy lemmas compose these clauses into 'an accepted function is tracked through any re-export and any module chain, a non-accepted one never'. "
+    "ObjectRetrieval._retrieve_object_rec (the authorized / external classification of a resolved name) is proved, over an abstract object graph and with the recursive call used by contract (partial correctness), to track an object only under an accepted path (S1), to follow a module attribute whatever module it is, to resolve a function / class defined elsewhere in its defining module under its own name, to track every terminal function / class / tracked value of an accepted path and nothing else, and to report a missing name as a coded error; ObjectRetrieval.retrieve_object (cache, import fall-back, start globals) is proved to answer, hit or miss, what the uncached call answers, to keep its per-evaluation cache coherent and to track only under an accepted path; three adequacy lemmas compose these clauses into 'an accepted function is tracked through any re-export and any module chain, a non-accepted one never'. "
     "Bounded stand-in (not proof): discovery (which names a function body refers to) and the influence of edits on both sides of the boundary "
     "are checked on generated package trees (see 'bounded'): package chain of depth 6, accepted prefix at every depth, six import forms (incl. an accepted function re-exported by a non-accepted module), an edit of a function / variable at every level in a fresh process -- a caller's signature changes iff the edited module is accepted; a data function of a non-accepted module is refused with an error naming the module."
 )
@@ -27,6 +27,8 @@ class _Replay(dict):
             return "h_evalctx.authorized_types"
         if key.startswith("ObjectRetrieval._retrieve_object_rec#"):
             return "h_retrieve.resolution_cases"
+        if key.startswith("ObjectRetrieval.retrieve_object#"):
+            return "h_retrieve.retrieve_cases"
         return dict.get(self, key, default)
 
 
